@@ -62,6 +62,27 @@ CLAIMS = {
              "NEGATIVE_SIZE, BAD_VERSION, DEPTH_LIMIT; the type ids of the predeclared errors come from symbolically executing the package initialiser.",
         note="Stream reader error wrapping not yet covered. Objects created by the package initialiser are assumed not to be mutated afterwards. " + TRUST,
         design="5 C17"),
+    "C06": dict(
+        text="Proof of the layout and framing arithmetic of TTHeader encoding over the bufiox.Writer interface contract (every writer, every buffer growth): on success Encode appended exactly 14 + size "
+             "bytes with size a multiple of 4 (zero padding) and at least 4, the 14-byte meta block holds magic+flags, the sequence id and size/4, writeKVInfo reports exactly the bytes it appended, "
+             "every 2-byte/4-byte length prefixed string is prefix + bytes. Decode (see C10) reads HeaderLen == 14 + declared size and PayloadLen == total + 4 - HeaderLen, so the lengths agree.",
+        note="Key/value map contents (and therefore the full parameter round trip, section order and the uint16 casts of counts / string lengths) are NOT proved: Go maps are abstracted to their length "
+             "and range over a map is an arbitrary number of arbitrary entries. The upper bound size <= 65536 is proved for sizes below 2^32 (the code compares after a uint32 conversion). "
+             "EncodeToBytes / DecodeFromBytes (bytes-backed writer/reader) are not yet under contract. " + TRUST,
+        design="5 C06"),
+    "C10": dict(
+        text="Proof over the bufiox.Reader interface contract (every fragmentation): Decode never panics, consumes 0, 14 or exactly 14 + declared size bytes, succeeds only if the magic matches, the declared "
+             "size 4*field (as a non-wrapping number) lies in 2..65536, the stream holds that many bytes, the protocol id is supported and the transform count fits; on success HeaderLen == 14 + declared, "
+             "PayloadLen == total + 4 - HeaderLen, flags / sequence id / protocol id are the header's. readKVInfo and the section readers are proved exactly equal to the info-section grammar "
+             "(internal/verifspec InfoOK): success iff every section is complete, for every byte string.",
+        note="Decode applies readKVInfo to bytes equal to the stream's; that composition (grammar over the stream itself) is not restated as a Decode postcondition. Map contents are not modelled. "
+             "DecodeFromBytes is not yet under contract. " + TRUST,
+        design="5 C10"),
+    "C11": dict(
+        text="Proof for ApplicationException: BLength equals the bytes FastWrite/FastWriteNocopy produce, which are the documented field encodings; FastRead never panics, consumes exactly the struct extent "
+             "given by the grammar (unknown or differently-typed fields of any type are skipped with their exact length) and succeeds iff the grammar accepts; FastMarshal/FastUnmarshal over the FastCodec interface contract.",
+        note="Base / BaseResp (generated code with maps) and the decoded field values of ApplicationException.FastRead are not yet under contract. " + TRUST,
+        design="5 C11"),
     "C18": dict(
         text="Proof (loop-free, complete for all type ids, messages and prefixes): PrependError preserves the exception kind (transport / protocol / application; a foreign value exposing TypeId becomes an "
              "application exception; anything else stays a plain error) and the type id, and the new message is the prefix followed by the original text; NewProtocolExceptionWithErr is the identity "
